@@ -46,6 +46,9 @@ func hardFor(c *Case) time.Duration {
 // softFor: tiny token-sequence programs that still run after 400 ms are loops
 func softFor(c *Case) time.Duration {
 	if c.Patient {
+		if c.Fam == "src" && c.Rep > 0 {
+			return 60000 // deep shapes are polynomial work: slow on a loaded machine, not divergent
+		}
 		return 10000
 	}
 	if (c.Fam == "src" && c.Rep == 0) || c.Fam == "text" {
@@ -303,7 +306,7 @@ func (w *Worker) readReply() (Obs, bool, error) {
 			return o, false, nil
 		}
 		return o, true, nil
-	case <-time.After((hardMs + 70000) * time.Millisecond):
+	case <-time.After((hardMs + 130000) * time.Millisecond):
 		return Obs{Kind: "wedged", Msg: "worker silent; killed by the parent"}, false, nil
 	}
 }
